@@ -749,3 +749,80 @@ pub fn perturbed_bundled(t: &mut Tape, strength: f64) -> Vec<u8> {
     }
     out
 }
+
+/// A voice with exactly the same metadata (header, windows, question lists, pdf shapes) as
+/// `base` but different trees (questions re-drawn, leaves re-assigned) and jittered PDFs, so the
+/// two can be combined in one voice set.
+pub fn variant_voice(t: &mut Tape, base: &VoiceSpec) -> VoiceSpec {
+    fn vary_model(t: &mut Tape, m: &mut ModelSpec, is_msd: bool) {
+        let nq = m.questions.len();
+        let len = m.pdf_len;
+        for tree in m.trees.iter_mut() {
+            for n in tree.nodes.iter_mut() {
+                if nq > 0 && t.chance(0.5) {
+                    n.question = t.below(nq);
+                }
+            }
+            // permute leaf assignment: swap the PDF numbers of two random leaves a few times
+            let leaves: Vec<(usize, bool)> = tree
+                .nodes
+                .iter()
+                .enumerate()
+                .flat_map(|(i, n)| {
+                    let mut v = vec![];
+                    if matches!(n.no, Child::Pdf(_)) {
+                        v.push((i, false));
+                    }
+                    if matches!(n.yes, Child::Pdf(_)) {
+                        v.push((i, true));
+                    }
+                    v
+                })
+                .collect();
+            if leaves.len() >= 2 {
+                for _ in 0..2 {
+                    let a = leaves[t.below(leaves.len())];
+                    let b = leaves[t.below(leaves.len())];
+                    let get = |nodes: &Vec<NodeSpec>, x: (usize, bool)| if x.1 { nodes[x.0].yes.clone() } else { nodes[x.0].no.clone() };
+                    let (ca, cb) = (get(&tree.nodes, a), get(&tree.nodes, b));
+                    if a.1 { tree.nodes[a.0].yes = cb } else { tree.nodes[a.0].no = cb }
+                    if b.1 { tree.nodes[b.0].yes = ca } else { tree.nodes[b.0].no = ca }
+                }
+            } else if tree.nodes.is_empty() && tree.npdf > 1 {
+                tree.leaf = t.urange(1, tree.npdf);
+            }
+            let half = (len - is_msd as usize) / 2;
+            for p in tree.pdfs.iter_mut() {
+                for (k, v) in p.iter_mut().enumerate() {
+                    if is_msd && k == len - 1 {
+                        *v = (*v + t.uniform(-0.3, 0.3) as f32).clamp(0.0, 1.0);
+                    } else if k < half {
+                        *v += (t.uniform(-0.1, 0.1) * (1.0 + v.abs() as f64 * 0.1)) as f32;
+                    } else {
+                        *v *= t.uniform(0.7, 1.4) as f32;
+                    }
+                }
+            }
+        }
+    }
+    let mut v = base.clone();
+    vary_model(t, &mut v.duration, false);
+    for d in v.duration.trees.iter_mut().flat_map(|t| t.pdfs.iter_mut()) {
+        let half = d.len() / 2;
+        for x in d.iter_mut().take(half) {
+            *x = x.max(0.3);
+        }
+    }
+    for s in v.streams.iter_mut() {
+        vary_model(t, &mut s.model, s.is_msd);
+        if let Some(g) = s.gv.as_mut() {
+            vary_model(t, g, false);
+            for d in g.trees.iter_mut().flat_map(|t| t.pdfs.iter_mut()) {
+                for x in d.iter_mut() {
+                    *x = x.abs().max(1e-12);
+                }
+            }
+        }
+    }
+    v
+}
